@@ -21,6 +21,7 @@ import Mahotas.Proofs.CScalarTies.MarginOf
 import Mahotas.Proofs.CScalarTies.Convex
 import Mahotas.Proofs.CScalarTies.AtFlat
 import Mahotas.Proofs.CScalarTies.PosToFlat
+import Mahotas.Proofs.CScalarTies.FlatToPos
 import Mahotas.Proofs.CScalarTies.Surf
 import Mahotas.Proofs.CScalarTies.Lbp
 
